@@ -285,7 +285,25 @@ class Result:
     def known(self, fid, text):
         self.known_hits[fid] = text
 
+    def coqchk(self):
+        """thorough tier: re-check the compiled property file and everything it depends on with the
+        independent checker; its context summary (axioms, type-in-type, unsafe fixpoints) goes into the evidence"""
+        t0 = time.time()
+        with Lock("coq"):
+            p = sh(["coqchk", "-silent", "-o", "-Q", COQ, "Anko", "Anko.Properties." + self.pid], cwd=COQ, check=False, timeout=5400)
+        out = p.stdout
+        summary = out[out.find("CONTEXT SUMMARY"):] if "CONTEXT SUMMARY" in out else out[-800:]
+        ok = p.returncode == 0 and "* Axioms: <none>" in out and "type-in-type: <none>" in out and "unsafe (co)fixpoints: <none>" in out \
+            and "positivity is assumed: <none>" in out
+        self.coverage["coqchk"] = {"ok": ok, "seconds": round(time.time() - t0, 1),
+                                   "summary": " ".join(summary.split())[:600]}
+        if not ok:
+            self.violation({"property": self.pid, "kind": "coqchk does not accept the compiled development, or reports axioms / disabled checks",
+                            "output": out[-2000:]}, "no-failing-input-found")
+
     def finish(self):
+        if self.tier == "thorough" and "obligations" in self.coverage:
+            self.coqchk()
         ev = {"property_id": self.pid, "tier": self.tier, "seed": self.seed, "level": "proof",
               "coverage": self.coverage, "assumptions": self.assumptions,
               "wall_s": round(time.time() - self.t0, 2), "violations": len(self.violations)}
